@@ -1,4 +1,5 @@
 #!/bin/bash
+export VERIF_EVIDENCE_DIR=/tmp/verif_scratch_evidence   # runs on a modified /repo must not overwrite the committed evidence
 # For every seeded change: apply it to /repo, run every check's quick tier, record which checks raise an alarm, undo it.
 # Writes seeded/RESULTS.tsv (seed <TAB> property <TAB> caught-by-own-check <TAB> checks that alarmed <TAB> of which with a concrete failing input).
 cd "$(dirname "$0")/.."
